@@ -6,25 +6,25 @@ props = [json.loads(l)["id"] for l in open(os.path.join(ROOT, "properties.jsonl"
 
 TRUST = "Trusted base: the harness's own ISA table / reference models in /verif/mc/src (a few hundred lines each), rustc, and the enumeration being complete for the stated alphabets and bounds only."
 
-ISA_TEXT = "Transition-conformance of a reference eBPF machine (mc/src/refmodel.rs, values carry definedness so the exclusion clauses are applied mechanically). Layer 1: every supported opcode x every (dst,src) register pair x 30 immediates x 12 offsets x 31^2 boundary operand values, one transition per case with the whole register frame (r0-r9), branch marker and store area compared. "
+ISA_TEXT = "Transition-conformance of a reference eBPF machine (mc/src/refmodel.rs, values carry definedness so the exclusion clauses are applied mechanically). Layer 1: every supported opcode x every (dst,src) register pair x 30 immediates x 12 offsets x 31^2 boundary operand values, one transition per case with the whole register frame (r0-r9), branch marker and store area compared, plus unused-field noise (offset 8/16/32, stray imm/src) on every form. Layer 2: all sequences of 3 (thorough 4) instructions over a 48-instruction alphabet on raw, metadata and fixed-metadata VMs. Layer 3: all control-flow skeletons (jumps, local calls, wide loads, dead code) of up to 4-5 slots. Layer 4: far jumps / calls / divisions in programs of 40,000, 70,000 and 1,000,000 instructions. Layer 5: every machine-code jump distance (a seven-byte x b three-byte fillers, 5 jump shapes) and every (skipped predecessor, jump-target instruction) pair. Layer 6: every sequence of 1-3 packets on one VM object per compiled engine. "
 CHECKS = {
  "C01": dict(engine="isa", category="model_checking", technique="exhaustive enumeration of (program, input) transitions of a reference eBPF machine over boundary alphabets, every one replayed on the interpreter and compared on the full observable state",
    text=ISA_TEXT + "Every model transition is executed on the real interpreter (instruction budget hook) and compared: returned value, Ok/Err class, packet and metadata bytes.",
    design_ref="DESIGN.md section 4 C01"),
- "C02": dict(engine="mem", category="model_checking", technique="exhaustive enumeration of access form x effective address (every offset within 9 bytes of both ends of every region, null, wrap-around, 2^63 away) x base+offset decomposition x region layout, each run on the interpreter against a containment predicate, with guard pages and canaries around every buffer",
+ "C02": dict(engine="mem", category="model_checking", technique="exhaustive enumeration of access form x effective address (every offset within 9 bytes of both ends of every region, null, wrap-around, 2^63 away) x base+offset decomposition x region layout (incl. nested / overlapping registered ranges, a 68 KiB packet) x what precedes the access (nothing, a narrower access of the same kind at the same address, r10 moved under a permissive verifier), each run on the interpreter against a containment predicate, with guard pages and canaries around every buffer",
    text="One transition (one access) per case, complete product of the alphabets. Expected: Ok iff all bytes lie inside packet, metadata buffer, stack or one registered range; on Ok the loaded value / stored bytes must be exact and nothing else may change; on Err every byte of every buffer and all canaries must be unchanged; never a panic; a fault kills the worker and is attributed to the case.",
    design_ref="DESIGN.md section 4 C02"),
  "C07": dict(engine="calls", category="model_checking", technique="exhaustive enumeration of call-graph programs (chains of depth 0..9 forward/backward, bounded self-recursion) x 16 body variants x stack-usage calculators x register values, each run on the reference machine (frames, callee-saved registers, r10 lowering, depth limit, stack bounds) and compared with the interpreter; JIT compared with the interpreter where defined",
    text="Each program folds what the property talks about into its result: r6-r9 and the stack tag after every return, the frame distance r10(caller) - r10(callee) computed inside the callee, r0-r5 passing through call and return, resumption at call+1. The reference machine gives the value, or Err for depth > 8 / stack below its 512 bytes. The JIT's deviation (recorded finding) is recognised by a deviation model (frame distance 0); anything else it does differently is reported.",
    design_ref="DESIGN.md section 4 C07"),
- "C08": dict(engine="calls", category="model_checking", technique="exhaustive enumeration of helper id x all 16 registered subsets x call site (top level, local-call depth 1-3, after 0-2 earlier calls) x argument tuples x dst field x engine, with instrumented helpers whose 2-instruction assembly entry stub records rsp",
+ "C08": dict(engine="calls", category="model_checking", technique="exhaustive enumeration of helper id x all 16 registered subsets x call site (top level, local-call depth 1-3, after 0-2 earlier calls) x argument tuples x dst field x other instructions around the call (ldabs/ldind, mul/div/mod, stack+atomic add, dead code) x re-binding of the id between two compilations x engine, with instrumented helpers whose 2-instruction assembly entry stub records rsp",
    text="Per executed call: the helper registered under the id (and no other) ran exactly once, received (r1..r5) in order, was entered with rsp = 8 mod 16, its return value is in r0, r6/r7/r10 are unchanged and execution resumed after the call. Unregistered ids: interpreter Err when reached, both compilers refuse at compile time, no helper runs.",
    design_ref="DESIGN.md section 4 C08"),
- "C09": dict(engine="ctx", category="model_checking", technique="exhaustive enumeration of VM kind x engine x every ordered pair of non-overlapping offsets x probe program x sequences of three executions with different packets (same address/different length, different address) plus a set_program round trip; each execution compared with values computed from the caller's buffer addresses",
+ "C09": dict(engine="ctx", category="model_checking", technique="exhaustive enumeration of VM kind x engine x every ordered pair of non-overlapping offsets x probe program (entry registers, fixed-buffer pointers, stack, packet loads at the first/last byte, beyond 64 KiB, and after each instruction of a 22-instruction context alphabet) x sequences of three executions with different packets (same address/different length, different address) plus a set_program round trip; each execution compared with values computed from the caller's buffer addresses",
    text="States = (VM kind, offsets, engine, probe, packet triple); each execution is a transition whose observation (r1, the two pointers in the fixed buffer, end-start, ldabs of first/last byte, both ends of the 512-byte stack) must equal the value the harness computes from the addresses of the buffers it passed. Compiled code runs in forked children.",
    design_ref="DESIGN.md section 4 C09"),
  "C10": dict(engine="api", category="model_checking", technique="explicit-state breadth-first search (stateright 0.31) to the fix-point of an abstract model of the VM API; every transition replays the state's history on a fresh real VM, applies the action and compares, then probes the reached state; self-loop edges get a depth-2 look-ahead",
-   text="The abstract state is (kind, program, verifier, helper, calculator, what each compiler holds, offsets). next_state() is executed against the implementation for every edge of the state graph (conformance per transition, not per counter-example); the post-state probe (execute on three packets, both compiled entry points, a set_program that must fail and change nothing) checks on every edge that the state reached behaves as the model says whatever path led there. Run twice; state and transition counts must agree.",
+   text="The abstract state is (kind, program, verifier, helper, calculator, what each compiler holds, offsets); 9 programs (incl. ones only a permissive verifier loads), 4 verifiers, 2 helpers, 3 offset pairs. next_state() is executed against the implementation for every edge of the state graph (conformance per transition, not per counter-example); the post-state probe (execute on three packets, both compiled entry points, a set_program that must fail and change nothing) checks on every edge that the state reached behaves as the model says whatever path led there. Run twice; state and transition counts must agree.",
    design_ref="DESIGN.md section 4 C10"),
  "C11": dict(engine="mem", category="model_checking", technique="same access x address x layout enumeration as C02 (no allowed ranges), each case compiled with Cranelift and executed in a forked child; observation = wait status + shared-memory arena",
    text="In-bounds: the child returns and the value/bytes are those of the access. Out of bounds: the child must die with SIGILL (the trap) and the arena, inspected by the parent through the shared mapping, must be byte-for-byte unchanged; SIGSEGV/SIGBUS or a changed canary means the access was attempted.",
@@ -39,34 +39,34 @@ CHECKS = {
    text="States = byte strings of the bounded space (2x10^8 in the quick tier); for every accepted one the interpreter is run (budget hook) under catch_unwind on NoData/Raw/Mbuff VMs with 0, 1 and 3 helpers: it must return a value, an error or exhaust the budget - never panic. The failure modes named in the property (unreachable!, get_insn out of range, register index >= 11, arithmetic overflow) are all panics in this build (overflow-checks on).",
    design_ref="DESIGN.md section 4 C05"),
  "C06": dict(engine="bytes", category="model_checking", technique="small-scope exhaustive enumeration of byte strings against a reference predicate transcribed clause by clause from the property; both verdicts compared on every string",
-   text="Every length 0..33, every (opcode, register byte) pair, and for n <= 3 (4 thorough) instructions every focus position x 256 opcodes x dst/src/offset/immediate classes x a 7-element context alphabet (exit, ja, mov, lddw half, zero slot, call, jeq): new() and set_program() must accept exactly when mc/src/refverif.rs says well-formed, and never panic.",
+   text="Every length 0..33, every (opcode, register byte) pair, and for n <= 3 (4 thorough) instructions every focus position x 256 opcodes x dst/src/offset/immediate classes x a 9-element context alphabet (exit, ja, mov, lddw half, zero slot, zero slot with fields set, call, jeq, store); plus counting/nesting families (1..40/300 repetitions of 11 constructs incl. local-call sites, call chains and bounded recursion of depth 1..12): new() and set_program() must accept exactly when mc/src/refverif.rs says well-formed, and never panic.",
    design_ref="DESIGN.md section 4 C06"),
- "C12": dict(engine="bytes", category="model_checking", technique="same byte-string space as C06 restricted to verifier-accepted strings, compiled twice by the JIT (all) and Cranelift (one opcode per translation arm) under catch_unwind; plus every program length 1..3000 of 8 instruction kinds, fix-up tables up to 2000 jumps and 65535..65537 (10^6) instructions",
-   text="jit_compile / cranelift_compile must return Ok or Err (a panic, including the emit_bytes! bounds assert that turns a buffer overrun into a panic, is a violation); two compilations must agree on Ok/Err and, where the reference machine proves the run defined, on the result (executed in a forked child).",
+ "C12": dict(engine="bytes", category="model_checking", technique="same byte-string space as C06 restricted to verifier-accepted strings, compiled twice by the JIT (all) and Cranelift (one opcode per translation arm) under catch_unwind; plus every program length 1..3000 of 8 instruction kinds, fix-up tables up to 2000 jumps, 65535..65537 (10^6) instructions, helper ids over the 32-bit range, compile/set_program/compile on one VM object for every ordered pair of 9 sizes, counting/nesting families; thorough: every sizing unit and the layer-4 programs at the 1,000,000-instruction limit",
+   text="jit_compile / cranelift_compile must return Ok or Err - an Err is an allowed outcome, as the property says - (a panic, including the emit_bytes! bounds assert that turns a buffer overrun into a panic, is a violation); two compilations must agree on Ok/Err and, where the reference machine proves the run defined, on the result (executed in a forked child).",
    design_ref="DESIGN.md section 4 C12"),
  "C18": dict(engine="sched", category="model_checking", technique="stateless DFS over all interleavings of real threads executing real machine code: own ptrace-based controlled scheduler, hardware watch-points (debug registers) on the shared word as scheduling points, single-stepping between a thread's ready and done markers, one thread at a time",
-   text="For every engine mix (3^N), N threads x K atomic adds (quick: (2,1) (2,2) (3,1); thorough adds (3,2) (4,1)), both widths, every schedule of the accesses is executed in a fresh subject process; after each execution the word must equal init + sum of addends, every access must be a locked read-modify-write adding that thread's addend, neighbouring bytes unchanged, every execution Ok. One schedule per configuration is replayed and must give the identical trace; a deliberately non-atomic subject must yield a lost update (self-test) or the check exits 2. Sequential part: width x alignment x addend x pointer register x engine.",
+   text="For every engine mix (3^N), N threads x K atomic adds (quick: (2,1) (2,2) (3,1); thorough adds (3,2) (4,1)), both widths, program shapes (straight line, the add as loop head / branch target / first instruction of a local function) and offset fields (0, +-2, 4, 12, 14, -32768 from a correspondingly misaligned pointer), every schedule of the accesses is executed in a fresh subject process; after each execution the word must equal init + sum of addends, every access must be a locked read-modify-write adding that thread's addend, neighbouring bytes unchanged, every execution Ok. One schedule per configuration is replayed and must give the identical trace; a deliberately non-atomic subject must yield a lost update (self-test) or the check exits 2. Sequential part: width x alignment x addend x pointer register x engine.",
    design_ref="DESIGN.md section 4 C18", note="Trusted base: the kernel's ptrace / debug-register implementation, the 60-line opcode classifier in mc/src/schedeng.rs, sequentially consistent interleaving model (no store buffers), x86-64 only."),
  "C19": dict(engine="helpers", category="exploration", technique="exhaustive enumeration of helper argument alphabets (boundary values per argument, all buffer lengths/alignments, all short strings, every k^2 and k^2+-1) against independent functions; stdout of bpf_trace_printf captured in a child process",
-   text="gather_bytes, memfrob (guard pages + canaries), strcmp (all pairs of strings <= 3 bytes over sign-boundary bytes, null pointers), sqrti (integer square root below 2^52, bit-exact integer emulation of round-to-f64/sqrt/truncate above), bpf_trace_printf (return value == bytes captured), rand (range, no panic) - each compared on every element of its argument product.",
+   text="gather_bytes, memfrob (guard pages + canaries), strcmp (all pairs of strings <= 3 bytes over sign-boundary bytes, every common-prefix length 0..1100 and around 4 KiB / 64 KiB, null pointers), sqrti (integer square root below 2^52, bit-exact integer emulation of round-to-f64/sqrt/truncate above), bpf_trace_printf (return value == bytes captured), rand (range, no panic) - each compared on every element of its argument product.",
    design_ref="DESIGN.md section 4 C19"),
  "C20": dict(engine="dual", category="exploration", technique="exhaustive evaluation of the enumerated corpora of C01/C03/C06/C13-C15 (reduced tiers) and of all API call sequences of depth <= 4 on every VM kind by two builds of rbpf (default features / no default features), answers compared case by case",
    text="rbpf-mc (std) streams every case to rbpf-mc-nostd (same transcript code linked against rbpf built with default-features = false; the JIT runs from mmap'ed caller-supplied executable memory) and compares the canonical answers: Ok(bytes)/Err for the assembler, accept/reject for the verifier, entries for the disassembler, value/Err and defined memory for interpreter and JIT, per-call results for API sequences. 3x10^6 cases in the quick tier.",
    design_ref="DESIGN.md section 4 C20"),
  "C13": dict(engine="text", category="exploration", technique="exhaustive enumeration of mnemonics x operand shapes x boundary value/spelling alphabets against an independent encoder",
-   text="Every mnemonic of the syntax x every operand shape (<=3 operands, plus 4) x boundary registers/offsets/immediates x number spellings and whitespace variants, plus every ordered pair of mnemonics and reduced triples, is assembled and compared byte-for-byte (or Err-for-Err) with an independent encoder written from the property text. Complete for the stated alphabets; values between boundaries are not covered.",
+   text="Every mnemonic of the syntax x every operand shape (<=3 operands, plus 4) x boundary registers/offsets/immediates x number spellings, plus every gap of the syntax x 8 blank strings (space, tab, LF, CR LF, CR, runs) per operand form, plus every ordered pair of mnemonics and reduced triples, is assembled and compared byte-for-byte (or Err-for-Err) with an independent encoder written from the property text. Complete for the stated alphabets; values between boundaries are not covered.",
    design_ref="DESIGN.md section 4 C13"),
- "C14": dict(engine="text", category="exploration", technique="exhaustive enumeration of all strings up to 5 (6) characters over a 14-character alphabet and all sequences of up to 4 (5) tokens from a literal/mnemonic/punctuation alphabet",
+ "C14": dict(engine="text", category="exploration", technique="exhaustive enumeration of all strings up to 5 (6) characters over a 16-character alphabet, all sequences of up to 4 (5) tokens from a literal/mnemonic/punctuation alphabet, and all one- and two-character insertions (137 characters) at every position of 5 base texts",
    text="assemble() is called under catch_unwind on every string of the bounded space; any panic or a call longer than 2 s is a violation. The token alphabet contains every numeric-literal length class around the i64/u64 limits with every sign in every operand position.",
    design_ref="DESIGN.md section 4 C14"),
  "C15": dict(engine="text", category="exploration", technique="exhaustive enumeration of supported opcodes x all 256 register nibbles x offset and immediate alphabets (thorough: all 65536 offsets, all 2^32 immediates per renderer shape) against an independent field table and an operand parser",
-   text="Each disassembled entry's opc/dst/src/off/imm must equal the encoded fields (imm sign-extended, lddw halves merged), its name must be a mnemonic of the opcode, and its text is parsed with the harness's own parser of the assembler syntax and must denote the same registers, offset and immediate. One entry per instruction; never a panic.",
+   text="Each disassembled entry's opc/dst/src/off/imm must equal the encoded fields (imm sign-extended, lddw halves merged), its name must be a mnemonic of the opcode, and its text is parsed with the harness's own parser of the assembler syntax and must denote the same registers, offset and immediate. One entry per instruction; never a panic. Also every immediate in -300..300 for every opcode and every control-flow skeleton (jumps, local calls, wide loads in every relative position) of up to 4 (5) slots.",
    design_ref="DESIGN.md section 4 C15"),
  "C16": dict(engine="text", category="exploration", technique="exhaustive enumeration of assembler-expressible instructions (all registers, offset/immediate alphabets, full 65536 offsets per shape) and 2-3 instruction programs through disassemble -> assemble",
-   text="Clause 1 (unused fields zero, non-negative immediates): the round trip must reproduce the bytes. Clause 2 (anything else over the supported opcodes): whenever assemble accepts the printed text the result must equal the harness's canonical form (unused fields cleared).",
+   text="Clause 1 (unused fields zero, non-negative immediates): the round trip must reproduce the bytes. Clause 2 (anything else over the supported opcodes): whenever assemble accepts the printed text the result must equal the harness's canonical form (unused fields cleared). Also every immediate in -300..300 per opcode and every control-flow skeleton of up to 4 (5) slots.",
    design_ref="DESIGN.md section 4 C16"),
  "C17": dict(engine="text", category="exploration", technique="exhaustive per-field enumeration of the 8-byte slot (256 opcodes x 256 register bytes x offsets; immediates) through get_insn/to_array/to_vec at indices 0, 1, 999999, and of every instruction-builder constructor x fields against an independent encoder, rbpf's encoder and the assembler",
-   text="Quick: all opcodes x all register bytes x boundary offsets, per-byte-lane immediates, all builder constructors with dst/src 0..15. Thorough: the full 2^32 (opcode, registers, offset) product and all 2^32 immediates. Fields are independent byte lanes, so per-field exhaustiveness covers the 2^64 slot space up to field interactions, which the boundary products also exercise.",
+   text="Quick: all opcodes x all register bytes x boundary offsets, per-byte-lane immediates, all builder constructors with dst/src 0..15, every ordered pair of constructors on one BpfCode. Thorough: the full 2^32 (opcode, registers, offset) product and all 2^32 immediates. Fields are independent byte lanes, so per-field exhaustiveness covers the 2^64 slot space up to field interactions, which the boundary products also exercise.",
    design_ref="DESIGN.md section 4 C17"),
 }
 
